@@ -868,6 +868,8 @@ func (r *runner) dealerCheat(sess *protos.Session, label func(party.ID) string) 
 		}
 		if r.sc.Alt == "wrongshares" {
 			protos.CmpWrongShares(sess, k, []byte("sid"), mk)
+			// abort notices are withheld: the party that was served the wrong share must reach its own verdict
+			e.OnEmit = func(inst party.ID, m *protocol.Message) bool { return m.RoundNumber != 0 }
 			for _, id := range su.ids {
 				e.AddParty(id, r.newParty(sess, id, label(id)))
 			}
@@ -1519,6 +1521,18 @@ func main() {
 		g.meta["lines"] = g.lines
 		mb, _ := json.Marshal(g.meta)
 		os.WriteFile(g.f.Name()+".meta", mb, 0o644)
+		// a call that did not return leaves a goroutine behind that keeps computing: this process stops here (everything
+		// so far is on disk) and the caller starts another one for the remaining scenarios
+		for _, v := range o.Viol {
+			if v.What == "hang" {
+				for _, gg := range groups {
+					gg.w.Flush()
+					gg.f.Close()
+				}
+				os.WriteFile(progress, []byte("hung"), 0o644)
+				os.Exit(3)
+			}
+		}
 	}
 	os.WriteFile(progress, []byte("done"), 0o644)
 	for _, g := range groups {
